@@ -4,7 +4,7 @@
 d="${1:?seed dir}"; prop="${2:?property}"; tier="${3:-quick}"; name="$(basename "$d")"
 cd /repo || exit 2
 if [ -n "$(git status --porcelain --untracked-files=no)" ]; then echo "refusing: /repo has uncommitted changes"; exit 2; fi
-undo() { git -C /repo checkout -q -- . ; }
+undo() { git -C /repo reset -q; git -C /repo checkout -q -- . ; }
 trap undo EXIT
 if ! git apply "$d/patch.diff" 2>/dev/null; then
   git apply --3way "$d/patch.diff" >/dev/null 2>&1 || { echo "NOAPPLY $name"; exit 2; }
